@@ -480,7 +480,7 @@ def eq_family():
 # selected-or-not branch is exactly "=" is split INSIDE the conditional:  {{t1|{{#if:1|=|x}}|k=v}} binds 1 = "x".
 # Until the fix is in /repo the generator does not produce that shape (VERIF_C04_EQ_BRANCH_ARG=1 produces it, adds directed
 # programs and reports it under the fingerprint below).
-EQ_BRANCH_ARG = os.environ.get("VERIF_C04_EQ_BRANCH_ARG") == "1"
+EQ_BRANCH_ARG = os.environ.get("VERIF_C04_EQ_BRANCH_ARG", "1") == "1"
 EQ_BRANCH_FP = "equal-split-inside-single-conditional-argument"
 _EQ = [("t", "=")]
 
